@@ -152,7 +152,7 @@ theorem PhaseV_pfx {v : View} {fut : Option Pc} (h : PhaseV v fut) : DeadOK v :=
     | q0Flush => exact LocalFlushPre.pfx h
     | discWrite bytes => exact LocalPre.pfx h
     | discFlush => exact LocalFlushPre.pfx h
-    | waitRead outer deadline yielded => exact h.1.pfx
+    | waitRead outer deadline yielded => exact h.1.1.pfx
 
 /-- Dropping a future that is not inside an operation-local write leaves the invariant intact: the
 queue entry it was working on records exactly how much of its packet is on the wire. -/
@@ -170,7 +170,7 @@ theorem cancel_phase {v : View} {fut : Option Pc} (h : PhaseV v fut) (hnt : tear
     | q0Flush => exact PhaseV.live (LocalFlushPre.flushPre h (by decide))
     | discWrite bytes => simp [tearsPacket] at hnt
     | discFlush => exact PhaseV.live (LocalFlushPre.flushPre h (by decide))
-    | waitRead outer deadline yielded => exact PhaseV.live (h.1.flushPre h.2)
+    | waitRead outer deadline yielded => exact PhaseV.live (h.1.1.flushPre h.2)
 
 theorem PhaseV_net {v : View} {pc : Pc} (h : PhaseV v (some pc)) : v.net = true := by
   cases pc with
@@ -183,7 +183,7 @@ theorem PhaseV_net {v : View} {pc : Pc} (h : PhaseV v (some pc)) : v.net = true 
   | q0Flush => exact h.1
   | discWrite bytes => exact h.1
   | discFlush => exact h.1
-  | waitRead outer deadline yielded => exact h.1.1.net
+  | waitRead outer deadline yielded => exact h.1.1.1.net
 
 theorem cancel_cases (w : World) (h : PhaseV w.view w.fut) :
     (w.nets ≠ [] ∧ CurTorn w.cancelFut) ∨ PhaseV w.cancelFut.view w.cancelFut.fut := by
@@ -335,7 +335,7 @@ theorem view_rx (w : World) (bytes : Bytes) (hn : w.nets ≠ []) :
 theorem FlushPre.setPid {v : View} (h : FlushPre v) (n : Nat) (h1 : 1 ≤ n) (h2 : n ≤ 65535) :
     FlushPre { v with sess := v.sess.setPid n } := by
   obtain ⟨part, hl, ho, ha⟩ := h
-  exact ⟨part, hl.sess (SessOK.same hl (closed_SP.setPid _ _ h1 h2 hl.sp) rfl rfl), ho, ha⟩
+  exact ⟨part, hl.sess (SessOK.same hl (closed_SP.setPid _ _ h1 h2 hl.sp) rfl rfl (Prim.setPid _ _ h1 h2) rfl rfl), ho, ha⟩
 
 theorem dropConn_eq (w : World) :
     w.dropConn = if w.cancelFut.conn.isSome then { (w.cancelFut.emit "drop") with conn := none } else w.cancelFut := rfl
@@ -528,7 +528,7 @@ theorem startConnect_post (w : World) (hsp : SP w.sess) (hlb : ∀ f ∈ w.log, 
     rw [c6, c3, c2, hcl]; simp
   simp only []
   split
-  · exact Post.dead_finishErr _ _ (by rw [hv]; rfl) (by rw [hv]; exact ⟨Pfx.nil, by simp [sers]⟩)
+  · exact Post.dead_finishErr _ _ (by rw [hv]; rfl) (by rw [hv]; exact ⟨Pfx.nil, LogSorted.nil⟩)
   · rename_i off len hres
     refine (machineW pollFuel).2.2.2.2.2.2.1 _ _ _ (φLW_poll _) ?_
     rw [hv]
@@ -685,17 +685,16 @@ structure WInv (w : World) : Prop where
   old : ∀ i net, i + 1 < w.nets.length → w.nets[i]? = some net → (i + 1) ∉ w.tornNets → Pfx net.wire
   cur : CurTorn w ∨ PhaseV w.view w.fut
   logBound : ∀ f ∈ w.log, f.net ≤ w.nets.length
-  /-- On every earlier transport that is not marked torn, no retained packet went out twice, and they
-  went out in serial order. -/
-  oldLog : ∀ k, 1 ≤ k → k < w.nets.length → k ∉ w.tornNets →
-    (sers (w.log.filter (fun f => f.net == k))).Pairwise (· < ·)
+  /-- On every earlier transport that is not marked torn, no retained packet and no PUBREL went out
+  twice, and they went out in serial order. -/
+  oldLog : ∀ k, 1 ≤ k → k < w.nets.length → k ∉ w.tornNets → LogSorted (w.log.filter (fun f => f.net == k))
 
 theorem WInv_init (cfg : Cfg) : WInv { sess := Session.new cfg } where
   sp := SP_new cfg
   netless := fun _ => ⟨rfl, rfl, rfl⟩
   tornBound := by intro i hi; simp at hi
   old := by intro i net hi; simp at hi
-  cur := Or.inr (PhaseV.dead rfl ⟨Pfx.nil, by simp [World.view, World.curLog, sers]⟩)
+  cur := Or.inr (PhaseV.dead rfl ⟨Pfx.nil, LogSorted.nil⟩)
   logBound := by intro f hf; simp at hf
   oldLog := by intro k _ hk; simp at hk
 
@@ -754,7 +753,7 @@ theorem exec_WInv (w : World) (d : Directive) (h : WInv w) : WInv (w.execDirecti
         · exact (wmachine (wstable_logOld _ _) pollFuel).2.2.2.2.2.2.1 _ _ _ (hb _)
       exact hgoal.2.2
     have holdLog : ∀ k, 1 ≤ k → k < (w.execDirective .connect).nets.length → k ∉ (w.execDirective .connect).tornNets →
-        (sers ((w.execDirective .connect).log.filter (fun f => f.net == k))).Pairwise (· < ·) := by
+        LogSorted ((w.execDirective .connect).log.filter (fun f => f.net == k)) := by
       intro k hk1 hk hnt
       have hlen : (w.execDirective .connect).nets.length = w.nets.length + 1 := f1
       rw [hlen] at hk
@@ -813,8 +812,9 @@ theorem exec_WInv (w : World) (d : Directive) (h : WInv w) : WInv (w.execDirecti
           · show Pfx (World.curNet _).wire
             simp only [World.curNet, e1]
             exact Pfx.nil
-          · show (sers (World.curLog _)).Pairwise (· < ·)
-            simp [World.curLog, e5, hlog0, sers]
+          · show LogSorted (World.curLog _)
+            simp only [World.curLog, e5, hlog0, List.filter_nil]
+            exact LogSorted.nil
     · have hfr : Frame w (w.execDirective d) :=
         wexec_noconnect (wstable_frame w) w (frame_cancel w w) (fun _ _ h => h) d (fun he => hd he) (Frame.refl hn)
       obtain ⟨g1, g2, g3, g4, g5⟩ := hfr
@@ -954,7 +954,40 @@ theorem PhaseV_wire {v : View} {fut : Option Pc} (h : PhaseV v fut)
     | q0Flush => exact ofFlush rfl (LocalFlushPre.flushPre h (by decide))
     | discWrite bytes => exact ofLocal (which := 2) (by decide) h (Or.inr rfl)
     | discFlush => exact ofFlush rfl (LocalFlushPre.flushPre h (by decide))
-    | waitRead outer deadline yielded => exact ofFlush rfl (h.1.flushPre h.2)
+    | waitRead outer deadline yielded => exact ofFlush rfl (h.1.1.flushPre h.2)
+
+/-- On a live connection the facts of `Lv` hold, at every await point. -/
+theorem PhaseV_lv {v : View} {fut : Option Pc} (h : PhaseV v fut) (hlive : v.live = true) : ∃ part, Lv v part := by
+  have ofFlush : FlushPre v → ∃ part, Lv v part := fun ⟨part, hl, _⟩ => ⟨part, hl⟩
+  have ofLocal : ∀ {which : Nat} {bytes : Bytes}, which ≠ 0 → LocalPre v which bytes → ∃ part, Lv v part := by
+    intro which bytes hw ⟨_, _, _, h4⟩
+    rcases h4 with ⟨h0, _⟩ | ⟨_, _, pre, hl, _⟩
+    · exact (hw h0).elim
+    · exact ⟨pre, hl⟩
+  have ofHand : LocalFlushPre v 0 → ∃ part, Lv v part := fun hh => by
+    have := hh.dead; rw [hlive] at this; cases this
+  cases fut with
+  | none =>
+    rcases PhaseV_none_cases h with ⟨_, hf⟩ | ⟨hd, _⟩
+    · exact ofFlush hf
+    · rw [hlive] at hd; cases hd
+  | some pc =>
+    cases pc with
+    | stepWrite ctx pkt bytes written len now => obtain ⟨step, hp, _⟩ := h; exact ofFlush hp.flushPre
+    | stepFlush ctx pkt now => obtain ⟨step, hp, _⟩ := h; exact ofFlush hp.flushPre
+    | connWrite bytes => have := LocalPre.dead h; rw [hlive] at this; cases this
+    | connFlush => exact ofHand h
+    | connRead => exact ofHand h
+    | q0Write bytes => exact ofLocal (which := 1) (by decide) h
+    | q0Flush => exact ofFlush (LocalFlushPre.flushPre h (by decide))
+    | discWrite bytes => exact ofLocal (which := 2) (by decide) h
+    | discFlush => exact ofFlush (LocalFlushPre.flushPre h (by decide))
+    | waitRead outer deadline yielded => exact ofFlush (h.1.1.flushPre h.2)
+
+/-- A connection is live only after an accepted CONNACK. -/
+theorem PhaseV_acc {v : View} {fut : Option Pc} (h : PhaseV v fut) (hlive : v.live = true) :
+    v.sess.data.everAccepted = true := by
+  obtain ⟨_, hl⟩ := PhaseV_lv h hlive; exact hl.acc
 
 /-! ### The ghost mark and the older transports -/
 
@@ -1046,7 +1079,7 @@ theorem Outbound.Slot.noPartial {o : Outbound} {step : Outbound.Step} (h : o.Slo
     rcases List.mem_cons.mp he with rfl | hm
     · exact hfl _ hst
     · exact hw0 _ (hrest e hm)
-  | release pre id rc st post hr hpre hpost hctl hret =>
+  | release pre id rc st rs ps post hr hpre hpost hctl hret =>
     simp only [Outbound.Step.state] at hst
     refine ⟨fun e he => hw0 _ (hctl e he), ?_, fun e he => not_partial_of_not_inProgress (hret e he) n⟩
     intro e he
@@ -1074,9 +1107,9 @@ theorem Outbound.Slot.onePartial {o : Outbound} {step : Outbound.Step} {n : Nat}
     simp only [Outbound.Step.state] at hst
     exact .control [] rest ⟨a, st⟩ (by simpa using hc) hst hb
       (fun x hx => fresh_not_inProgress _ (hrest x (by simpa using hx))) hrel hret
-  | release pre id rc st post hr hpre hpost hctl hret =>
+  | release pre id rc st rs ps post hr hpre hpost hctl hret =>
     simp only [Outbound.Step.state] at hst
-    refine .release pre post ⟨id, rc, st⟩ hr hst hb ?_ (fun x hx => fresh_not_inProgress _ (hctl x hx)) hret
+    refine .release pre post ⟨id, rc, st, rs, ps⟩ hr hst hb ?_ (fun x hx => fresh_not_inProgress _ (hctl x hx)) hret
     intro x hx
     rcases List.mem_append.mp hx with hm | hm
     · exact (hpre x hm).2
@@ -1187,6 +1220,31 @@ theorem WInv.curLog {w : World} (h : WInv w) (hnt : w.nets.length ∉ w.tornNets
   · obtain ⟨frames, part, hw, hfr, _, _, _, hsub, hlog, _⟩ := PhaseV_wire hp (Or.inl hl)
     exact ⟨⟨frames, part, hw, hfr, hsub⟩, hlog hl⟩
 
+/-- On a live connection whose transport is not marked torn, a CONNACK has been accepted (ghost flag). -/
+theorem WInv.accepted {w : World} (h : WInv w) (hnt : w.nets.length ∉ w.tornNets) (hl : w.live = true) :
+    w.sess.data.everAccepted = true := by
+  rcases h.cur with ht | hp
+  · exact (hnt ht).elim
+  · exact PhaseV_acc hp hl
+
+/-- On a live connection whose transport is not marked torn: the acknowledgements written on this
+transport, followed by the ones still waiting in the control queue, are the ones recorded in the inbound
+log of this connection, in order. -/
+theorem WInv.acks {w : World} (h : WInv w) (hnt : w.nets.length ∉ w.tornNets) (hl : w.live = true) :
+    AckEq w.sess w.curLog := by
+  rcases h.cur with ht | hp
+  · exact (hnt ht).elim
+  · obtain ⟨_, hlv⟩ := PhaseV_lv hp hl; exact hlv.acks
+
+/-- On a live connection whose transport is not marked torn: every release entry, and every PUBREL in
+the log of this transport, whose serial is at or above the mark of this connection has a transmission of
+its PUBLISH in the log of this transport. -/
+theorem WInv.relpub {w : World} (h : WInv w) (hnt : w.nets.length ∉ w.tornNets) (hl : w.live = true) :
+    RelPub w.sess w.curLog := by
+  rcases h.cur with ht | hp
+  · exact (hnt ht).elim
+  · obtain ⟨_, hlv⟩ := PhaseV_lv hp hl; exact hlv.relpub
+
 /-- In a log whose serials increase, the entry with the smaller serial comes first. -/
 theorem sublist_pair_of_sorted {l : List LogEntry} (hs : (sers l).Pairwise (· < ·)) {f g : LogEntry} {s t : Nat}
     (hf : f ∈ l) (hg : g ∈ l) (hfs : f.ser? = some s) (hgt : g.ser? = some t) (hlt : s < t) : [f, g].Sublist l := by
@@ -1249,9 +1307,9 @@ theorem exec_log_prefix (w : World) (d : Directive) : w.log <+: (w.execDirective
   · exact wexec_noconnect (wstable_logPrefix w.log) w (hcancel w) (fun _ _ h => h) d (fun he => hd he) (List.prefix_refl _)
 
 /-- On every transport that is not marked torn — the current one or an earlier one — the retained
-packets in its part of the log have strictly increasing serials. -/
+packets in its part of the log have strictly increasing serials, and so have the PUBREL packets. -/
 theorem WInv.log_sorted {w : World} (h : WInv w) (k : Nat) (hk1 : 1 ≤ k) (hk : k ≤ w.nets.length) (hnt : k ∉ w.tornNets) :
-    (sers (w.log.filter (fun f => f.net == k))).Pairwise (· < ·) := by
+    LogSorted (w.log.filter (fun f => f.net == k)) := by
   by_cases hlt : k < w.nets.length
   · exact h.oldLog k hk1 hlt hnt
   · have heq : k = w.nets.length := by omega
